@@ -18,6 +18,7 @@
 #include <exception>
 #include <functional>
 #include <string>
+#include <vector>
 
 namespace odesys {
 using namespace SimTK;
@@ -45,6 +46,7 @@ class OdeGuts : public System::Guts {
     RhsFn rhs;
     mutable QIndex q0; mutable UIndex u0; mutable ZIndex z0;
     mutable Array_<DiscreteVariableIndex> dix;
+    std::vector<Stage> dStages;     // optional: the stage discrete variable i invalidates (default Stage::Dynamics)
 public:
     OdeGuts() : Guts() {}
     OdeGuts* cloneImpl() const override { return new OdeGuts(*this); }
@@ -54,7 +56,8 @@ public:
         if (nq) { q0 = s.allocateQ(subsys, Vector(nq, Real(0))); u0 = s.allocateU(subsys, Vector(nq, Real(0))); }
         if (nz) z0 = s.allocateZ(subsys, Vector(nz, Real(0)));
         dix.clear();
-        for (int i = 0; i < nd; ++i) dix.push_back(s.allocateDiscreteVariable(subsys, Stage::Dynamics, new Value<Real>(0)));
+        for (int i = 0; i < nd; ++i)
+            dix.push_back(s.allocateDiscreteVariable(subsys, i < (int)dStages.size() ? dStages[i] : Stage(Stage::Dynamics), new Value<Real>(0)));
         return 0;
     }
     int realizeVelocityImpl(const State& s) const override {
@@ -94,6 +97,13 @@ public:
     const OdeGuts& getGuts() const { return dynamic_cast<const OdeGuts&>(getSystemGuts()); }
     OdeGuts& updGuts() { return dynamic_cast<OdeGuts&>(updSystemGuts()); }
     SubsystemIndex subsys() const { return getGuts().subsys; }
+    // Discrete variable i invalidates stage g instead of Stage::Dynamics (call before makeState()).  The right-hand
+    // side reads the variables while realizing Stage::Acceleration, so Dynamics and Acceleration are both legitimate.
+    void setDiscreteVariableStage(int i, Stage g) {
+        std::vector<Stage>& v = updGuts().dStages;
+        while ((int)v.size() <= i) v.push_back(Stage(Stage::Dynamics));
+        v[i] = g;
+    }
 
     // Realize topology + model and return an initial state with the given values.
     State makeState(Real t, const Vector& q, const Vector& u, const Vector& z) {
